@@ -1,4 +1,5 @@
 import Plotink.PyIO
+import Plotink.PyObj
 /-! Evaluation lemmas for the combinators of `Plotink/PyIO.lean` (core Lean only): how expressions and statements
 reduce once their sub-expressions are values.  All by `rfl` (the combinators are plain functions), stated as
 equalities of functions so that `simp only` can evaluate a generated expression without a state argument. -/
@@ -69,4 +70,112 @@ end
 theorem isSub_refl (c : ExcClass) : c.isSub c = true := by cases c <;> rfl
 
 end PyIO
+end Plotink
+
+/-! # the object layer (`Plotink/PyObj.lean`)
+
+Same style: equalities of functions, all by `rfl`, so that `simp only [...]` evaluates a generated expression on values
+without a world argument; plus application-level lemmas for the pieces that read the world (`getattr`, method calls)
+and for statements. -/
+namespace Plotink
+namespace PyObj
+
+section
+variable {ω σ : Type}
+
+theorem bind_ok (v : Val) (f : Val → Eff ω) : bind (ok v) f = f v := rfl
+theorem bind_raise (c : PyIO.ExcClass) (f : Val → Eff ω) : bind (raise c : Eff ω) f = raise c := rfl
+theorem ofP_ok (v : Val) : (ofP (.ok v) : Eff ω) = ok v := rfl
+theorem ofP_error (c : PyIO.ExcClass) : (ofP (.error c) : Eff ω) = raise c := rfl
+theorem app1_ok (f : Val → P) (v : Val) : (app1 f (ok v) : Eff ω) = ofP (f v) := rfl
+theorem app2_ok (f : Val → Val → P) (a b : Val) : (app2 f (ok a) (ok b) : Eff ω) = ofP (f a b) := rfl
+theorem app3_ok (f : Val → Val → Val → P) (a b c : Val) : (app3 f (ok a) (ok b) (ok c) : Eff ω) = ofP (f a b c) := rfl
+theorem app2_ok_left (f : Val → Val → P) (a : Val) (b : Eff ω) : app2 f (ok a) b = bind b (fun y => ofP (f a y)) := rfl
+theorem app1_raise (f : Val → P) (c : PyIO.ExcClass) : (app1 f (raise c) : Eff ω) = raise c := rfl
+theorem eff1_ok (f : Val → Eff ω) (v : Val) : eff1 f (ok v) = f v := rfl
+theorem eff2_ok (f : Val → Val → Eff ω) (a b : Val) : eff2 f (ok a) (ok b) = f a b := rfl
+theorem and_ok (v : Val) (b : Eff ω) : and_ (ok v) b = if truthy v then b else ok v := rfl
+theorem or_ok (v : Val) (b : Eff ω) : or_ (ok v) b = if truthy v then ok v else b := rfl
+theorem not_ok (v : Val) : (not_ (ok v) : Eff ω) = ok (.bool (!truthy v)) := rfl
+
+theorem load_of_bound {v : Val} (h : v ≠ .unbound) : (load v : Eff ω) = ok v := by
+  cases v <;> first | rfl | exact absurd rfl h
+theorem load_str (s : Str) : (load (.str s) : Eff ω) = ok (.str s) := rfl
+theorem load_int (n : Int) : (load (.int n) : Eff ω) = ok (.int n) := rfl
+theorem load_none : (load .none : Eff ω) = ok .none := rfl
+theorem load_bool (b : Bool) : (load (.bool b) : Eff ω) = ok (.bool b) := rfl
+theorem load_unbound : (load .unbound : Eff ω) = raise .unboundLocalError := rfl
+
+theorem evalList_nil (k : List Val → Eff ω) : evalList [] k = k [] := rfl
+theorem evalList_cons_ok (v : Val) (r : List (Eff ω)) (k : List Val → Eff ω) :
+    evalList (ok v :: r) k = evalList r (fun xs => k (v :: xs)) := rfl
+
+/-- `self.attr` when the attribute holds a value: the world is not touched -/
+theorem getattr_apply {get : ω → Val} {w : World ω} (h : get w.obj ≠ .unbound) :
+    getattr get w = (.ok (get w.obj), w) := by
+  unfold getattr
+  cases hg : get w.obj <;> first | rfl | exact absurd hg h
+
+theorem bind_apply_ok {m : Eff ω} {f : Val → Eff ω} {w w' : World ω} {v : Val} (h : m w = (.ok v, w')) :
+    bind m f w = f v w' := by
+  simp only [bind, h]
+theorem bind_apply_exc {m : Eff ω} {f : Val → Eff ω} {w w' : World ω} {c : PyIO.ExcClass} (h : m w = (.exc c, w')) :
+    bind m f w = (.exc c, w') := by
+  simp only [bind, h]
+
+theorem ok_apply (v : Val) (w : World ω) : (ok v : Eff ω) w = (.ok v, w) := rfl
+theorem raise_apply (c : PyIO.ExcClass) (w : World ω) : (raise c : Eff ω) w = (.exc c, w) := rfl
+
+/-- a call of another generated method -/
+theorem mcall0_apply (f : World ω → Out ω) (w : World ω) : mcall0 f w = ofOut (f w) (.fuelOut, w) := rfl
+theorem mcall1_ok_apply (f : Val → World ω → Out ω) (a : Val) (w : World ω) :
+    mcall1 f (ok a) w = ofOut (f a w) (.fuelOut, w) := rfl
+theorem mcall2_ok_apply (f : Val → Val → World ω → Out ω) (a b : Val) (w : World ω) :
+    mcall2 f (ok a) (ok b) w = ofOut (f a b w) (.fuelOut, w) := rfl
+theorem ofOut_val (v : Val) (w : World ω) (r : Res × World ω) : ofOut (.val v w) r = (.ok v, w) := rfl
+theorem ofOut_exc (c : PyIO.ExcClass) (w : World ω) (r : Res × World ω) : ofOut (.exc c w) r = (.exc c, w) := rfl
+
+theorem block_cons2 (a b : Stmt ω σ) (r : List (Stmt ω σ)) : block (a :: b :: r) = seq a (block (b :: r)) := rfl
+theorem block_one (a : Stmt ω σ) : block [a] = a := rfl
+
+theorem seq_norm {a b : Stmt ω σ} {fuel : Nat} {env env' : σ} {w w' : World ω} (h : a fuel env w = .norm env' w') :
+    seq a b fuel env w = b fuel env' w' := by
+  simp only [seq, h]
+theorem seq_exc {a b : Stmt ω σ} {fuel : Nat} {env env' : σ} {w w' : World ω} {c : PyIO.ExcClass}
+    (h : a fuel env w = .exc c env' w') : seq a b fuel env w = .exc c env' w' := by
+  simp only [seq, h]
+theorem seq_ret {a b : Stmt ω σ} {fuel : Nat} {env : σ} {w w' : World ω} {v : Val}
+    (h : a fuel env w = .ret v w') : seq a b fuel env w = .ret v w' := by
+  simp only [seq, h]
+
+theorem assign_of {set : σ → Val → σ} {e : Expr ω σ} {fuel : Nat} {env : σ} {w w' : World ω} {v : Val}
+    (h : e fuel env w = (.ok v, w')) : assign set e fuel env w = .norm (set env v) w' := by
+  simp only [assign, h]
+theorem assign_exc {set : σ → Val → σ} {e : Expr ω σ} {fuel : Nat} {env : σ} {w w' : World ω} {c : PyIO.ExcClass}
+    (h : e fuel env w = (.exc c, w')) : assign set e fuel env w = .exc c env w' := by
+  simp only [assign, h]
+theorem setattr_of {set : ω → Val → ω} {e : Expr ω σ} {fuel : Nat} {env : σ} {w w' : World ω} {v : Val}
+    (h : e fuel env w = (.ok v, w')) : setattr set e fuel env w = .norm env { w' with obj := set w'.obj v } := by
+  simp only [setattr, h]
+theorem expr_of {e : Expr ω σ} {fuel : Nat} {env : σ} {w w' : World ω} {v : Val}
+    (h : e fuel env w = (.ok v, w')) : expr e fuel env w = .norm env w' := by
+  simp only [expr, h]
+theorem expr_exc {e : Expr ω σ} {fuel : Nat} {env : σ} {w w' : World ω} {c : PyIO.ExcClass}
+    (h : e fuel env w = (.exc c, w')) : expr e fuel env w = .exc c env w' := by
+  simp only [expr, h]
+theorem return_of {e : Expr ω σ} {fuel : Nat} {env : σ} {w w' : World ω} {v : Val}
+    (h : e fuel env w = (.ok v, w')) : return_ e fuel env w = .ret v w' := by
+  simp only [return_, h]
+theorem ifte_of {c : Expr ω σ} {a b : Stmt ω σ} {fuel : Nat} {env : σ} {w w' : World ω} {v : Val}
+    (h : c fuel env w = (.ok v, w')) :
+    ifte c a b fuel env w = if truthy v then a fuel env w' else b fuel env w' := by
+  simp only [ifte, h]
+theorem pass_eq (fuel : Nat) (env : σ) (w : World ω) : (pass : Stmt ω σ) fuel env w = .norm env w := rfl
+
+theorem truthy_str (s : Str) : truthy (.str s) = !s.isEmpty := rfl
+theorem truthy_bool (b : Bool) : truthy (.bool b) = b := rfl
+
+end
+
+end PyObj
 end Plotink
